@@ -76,6 +76,16 @@ def build(case):
     unc = {"std": lambda: StdDevUncertainty(sig.copy()), "var": lambda: VarianceUncertainty(sig.copy() ** 2),
            "unknown": lambda: UnknownUncertainty(sig.copy()), "absent": lambda: None}[k]()
     wcs = W.make_wcs(random.Random(case["wseed"]), shape, "probe")
+    if case["wseed"] % 3 == 0:
+        # the cube's arrays are views into larger arrays (what slicing a bigger cube leaves behind): a cube
+        # that does not own its memory must be left as untouched as one that does
+        def view(a):
+            return np.stack([np.zeros_like(a), a, np.zeros_like(a)])[1]
+        data_in = view(d)
+        mask_in = mask if mask is None or isinstance(mask, bool) else view(mask)
+        if unc is not None:
+            unc = type(unc)(view(unc.array), copy=False)
+        return NDCube(data_in, wcs=wcs, uncertainty=unc, mask=mask_in), d, sig, mask
     return NDCube(d.copy(), wcs=wcs, uncertainty=unc, mask=mask if mask is None or isinstance(mask, bool) else mask.copy()), d, sig, mask
 
 
